@@ -64,6 +64,17 @@ package rewriter
 //@        && (BFrozen(b) ==> BLen(b) > 0 && BKind(b, BLen(b) - 1) >= kindNormal)
 //@ pred PushOK(b *block) := !BFrozen(b) && (BLen(b) == 0 || BKind(b, BLen(b) - 1) < kindNormal)
 
+// ResidualYield(s): a yield in the parts of s that pass 2 carries over as native code when it pushes s
+// (initialisers, post statements, whole simple statements). Sub-blocks are not covered here: they are
+// rewritten, and whether they still hold a yield is decided by the kinds of the blocks they produce.
+//@ pred ResidualYield(s ast.Stmt) := if isnil(s) then false
+//@        else if isa(s, IfStmt) then HasYield(as(s, IfStmt).Init)
+//@        else if isa(s, SwitchStmt) then HasYield(as(s, SwitchStmt).Init)
+//@        else if isa(s, TypeSwitchStmt) then HasYield(as(s, TypeSwitchStmt).Init) || HasYield(as(s, TypeSwitchStmt).Assign)
+//@        else if isa(s, ForStmt) then HasYield(as(s, ForStmt).Init) || HasYield(as(s, ForStmt).Post)
+//@        else if isa(s, BlockStmt) || isa(s, BranchStmt) || isa(s, EmptyStmt) || isa(s, ReturnStmt) then false
+//@        else HasYield(s)
+
 //@ func mkBlock(kind) (b)
 //@   reveal BLen, BKLen, BStmt, BKind, BFrozen, BChecked, BOwner, BBlock
 //@   ensures[fresh] fresh(b) && fresh(BBlock(b))
@@ -81,6 +92,7 @@ package rewriter
 //@ func (b *block) push(stmt, kind)
 //@   requires BlockInv(b) && BChecked(b) && PushOK(b)
 //@   requires KindOK(kind) && !isnil(stmt)
+//@   requires[no-residual-yield] !ResidualYield(stmt)     -- C12: nothing containing a yield is emitted as native code
 //@   ensures[len] BLen(b) == old(BLen(b)) + 1 && BKLen(b) == old(BKLen(b)) + 1
 //@   ensures[last] BStmt(b, old(BLen(b))) == stmt && BKind(b, old(BLen(b))) == kind
 //@   ensures[prefix] forall j: Int :: 0 <= j && j < old(BLen(b)) ==> BStmt(b, j) == old(BStmt(b, j)) && BKind(b, j) == old(BKind(b, j))
@@ -490,6 +502,8 @@ package rewriter
 //@   ensures[same-or-fresh] res == children || (fresh(res) && BLen(res) == 0 && BOwner(res) == kindDelay && EndsOK(children))
 //@   ensures[ready] res != nil && Ready(res)
 //@   ensures[children] BlockInv(children) && ATBL(children) && BOwner(children) == old(BOwner(children))
+//@   assume-obligation call[block.push].requires[no-residual-yield] at `children.pop()` because the statement passed the same check when it was first pushed, and its initialiser fields have not been written since (A-tree)
+//@   ensures[local:first-half-closed] EndsOK(current)
 //@   modifies BLen(children), BKLen(children), BStmt(children), BKind(children), BChecked(children), BFrozen(children)
 
 //@ func (r *yieldRewriter) rewriteYieldCall(call, children) (following)
@@ -508,22 +522,28 @@ package rewriter
 
 //@ func (r *yieldRewriter) rewriteStmts(stmts, idx, children)
 //@   reveal wf-ast
+//@   assume-obligation call[yieldRewriter.rewriteStmt].requires[yield-stmt] because A-yield-stmt
 //@   requires YRCtx(r) && StmtList(stmts) && 0 <= idx && children != nil && Ready(children) && BodyKind(BOwner(children))
 //@   ensures[inv] BlockInv(children) && BOwner(children) == old(BOwner(children)) && Shape(children)
 //@   ensures[ends] BOwner(children) == kindDelay ==> EndsOK(children)
 //@   ensures[for-body] BOwner(children) == kindFor ==> EndsOK(children) || AllTrivial(children)
+//@   ensures[local:callback-closed] following != nil && isLast && BOwner(following) == kindDelay ==> EndsOK(following)
 //@   modifies BLen(children), BKLen(children), BStmt(children), BKind(children), BChecked(children), BFrozen(children), AST
 
 //@ func (r *yieldRewriter) rewriteStmt(stmt, isLast, children) (res)
 //@   reveal wf-ast
 //@   requires YRCtx(r) && ProperStmt(stmt) && children != nil && Ready(children) && BodyKind(BOwner(children))
 //@   requires isa(stmt, BlockStmt) ==> StmtList(as(stmt, BlockStmt).List)
+//@   requires[yield-stmt] isa(stmt, ExprStmt) && HasYield(stmt) ==> IsCallStmtOf(stmt, r.rewriter.yieldFunc)
+//@   assume-obligation call[yieldRewriter.rewriteForStmt].requires[yield-stmt] because A-yield-stmt: co.Yield has no result, so a simple statement that contains a yield is a (possibly parenthesised) call statement of co.Yield; YieldFrom statements were desugared by the earlier pass
 //@   ensures[children] BlockInv(children) && BOwner(children) == old(BOwner(children)) && Shape(children)
 //@   ensures[res] res != nil ==> (res == children || fresh(res)) && BlockInv(res) && ATBL(res) && BodyKind(BOwner(res))
 //@        && (res != children ==> BOwner(res) == kindDelay && EndsOK(children))
 //@   ensures[last] res == nil ==> (BOwner(children) == kindDelay ==> EndsOK(children))
 //@        && (BOwner(children) == kindFor ==> EndsOK(children) || AllTrivial(children))
 //@   ensures[res-last] res != nil && isLast && res == children && BOwner(children) == kindFor ==> EndsOK(children) || AllTrivial(children)
+//@   ensures[local:callback-closed] res == nil && following != nil && BOwner(following) == kindDelay ==> EndsOK(following)
+//@   ensures[yield-closes] IsCallStmtOf(stmt, r.rewriter.yieldFunc) ==> EndsOK(children) && (isLast ==> res == nil)
 //@   modifies BLen(children), BKLen(children), BStmt(children), BKind(children), BChecked(children), BFrozen(children), AST
 
 //@ func (r *yieldRewriter) lastSwitchInLoop(isLast, children) (res)
@@ -546,9 +566,14 @@ package rewriter
 
 //@ func (r *yieldRewriter) rewriteSwitchStmt(stmt, init, x, body, pos, children) (res)
 //@   reveal wf-ast
+//@   assume-obligation call[yieldRewriter.rewriteStmt].requires[yield-stmt] because A-yield-stmt
 //@   requires YRCtx(r) && !isnil(stmt) && init != nil && pos != nil && body != nil && CaseList(body.List)
 //@   requires children != nil && Ready(children) && BodyKind(BOwner(children))
 //@   requires (isnil(x) ==> same(x, nil)) && (same(x, nil) || implements(x, Expr) || implements(x, Stmt))
+//@   requires[init-alias] (isa(stmt, SwitchStmt) ==> same(deref(init), as(stmt, SwitchStmt).Init))
+//@        && (isa(stmt, TypeSwitchStmt) ==> same(deref(init), as(stmt, TypeSwitchStmt).Init) && !HasYield(as(stmt, TypeSwitchStmt).Assign))
+//@        && (isa(stmt, SwitchStmt) || isa(stmt, TypeSwitchStmt))
+//@   requires[assign-checked] implements(x, Stmt) ==> !HasYield(x)
 //@   requires WfStmt(deref(init)) && (!isnil(deref(init)) ==> ProperStmt(deref(init)) && !isa(deref(init), BlockStmt)) && !IsDefine(deref(init))
 //@   ensures[children] BlockInv(children) && BOwner(children) == old(BOwner(children)) && Shape(children)
 //@   ensures[res] res != nil && (res == children || fresh(res)) && BlockInv(res) && ATBL(res) && BodyKind(BOwner(res))
@@ -558,14 +583,18 @@ package rewriter
 
 //@ func (r *yieldRewriter) rewriteForStmt(stmt, children) (res)
 //@   reveal wf-ast
+//@   assume-obligation call[yieldRewriter.rewriteStmt].requires[yield-stmt] because A-yield-stmt
 //@   requires YRCtx(r) && stmt != nil && children != nil && Ready(children) && BodyKind(BOwner(children))
 //@   requires WfStmt(stmt.Init) && WfStmt(stmt.Post) && WfExpr(stmt.Cond)
 //@   requires (!isnil(stmt.Init) ==> ProperStmt(stmt.Init) && !isa(stmt.Init, BlockStmt)) && (!isnil(stmt.Post) ==> ProperStmt(stmt.Post) && !isa(stmt.Post, BlockStmt))
 //@   requires !IsDefine(stmt.Init) && !IsDefine(stmt.Post)
+//@   requires[yield-stmt] HasYield(stmt.Post) ==> IsCallStmtOf(stmt.Post, r.rewriter.yieldFunc)
 //@   assume-obligation call[assert].requires at `instanceof[` because A-yield-stmt: a simple statement that contains a yield is a call statement of co.Yield, so rewriting a yielding post statement leaves a return statement last
 //@   assume-obligation call[block.lastStmt].requires because A-yield-stmt (same)
 //@   ensures[children] BlockInv(children) && BOwner(children) == old(BOwner(children)) && Shape(children)
 //@   ensures[res] res != nil && (res == children || fresh(res)) && BlockInv(res) && ATBL(res) && BodyKind(BOwner(res))
 //@        && (res != children ==> BOwner(res) == kindDelay && EndsOK(children))
 //@   ensures[closed-or-trivial] EndsOK(res) || AllTrivial(res)
+//@   ensures[local:body-closed] BFrozen(res) && BKind(res, BLen(res) - 1) == kindFor ==> EndsOK(body)
+//@   ensures[local:post-closed] EndsOK(postBlock)
 //@   modifies BLen(children), BKLen(children), BStmt(children), BKind(children), BChecked(children), BFrozen(children), AST
